@@ -1,1 +1,148 @@
-//! placeholder (SpyKinematics) - filled in with C09
+//! SpyKinematics: a boundary monitor that wraps any Kinematics, forwards every call unchanged and
+//! appends an event to a thread-safe append-only log. Optional per-call callback (used to inject
+//! delays, raise cancellation flags at the k-th query, ...).
+
+use nalgebra::Isometry3;
+use rs_opw_kinematics::constraints::Constraints;
+use rs_opw_kinematics::kinematic_traits::{Joints, Kinematics, Pose, Singularity, Solutions};
+use std::sync::atomic::{AtomicU64, Ordering};
+use std::sync::{Arc, Mutex};
+
+#[derive(Clone, Copy, Debug, PartialEq, Eq, Hash)]
+pub enum Method {
+    Inverse,
+    Continuing,
+    FiveDof,
+    Continuing5,
+    Forward,
+    Links,
+    Singularity,
+    Constraints,
+}
+
+impl Method {
+    pub fn name(&self) -> &'static str {
+        match self {
+            Method::Inverse => "inverse",
+            Method::Continuing => "inverse_continuing",
+            Method::FiveDof => "inverse_5dof",
+            Method::Continuing5 => "inverse_continuing_5dof",
+            Method::Forward => "forward",
+            Method::Links => "forward_with_joint_poses",
+            Method::Singularity => "kinematic_singularity",
+            Method::Constraints => "constraints",
+        }
+    }
+}
+pub const ALL_METHODS: [Method; 8] =
+    [Method::Inverse, Method::Continuing, Method::FiveDof, Method::Continuing5, Method::Forward, Method::Links, Method::Singularity, Method::Constraints];
+
+#[derive(Clone, Debug)]
+pub struct Event {
+    pub seq: u64,
+    pub thread: u64,
+    pub method: Method,
+    pub pose: Option<Isometry3<f64>>,
+    pub joints: Option<Joints>,
+    pub j6: Option<f64>,
+    pub n_result: usize,
+}
+
+pub type Callback = Box<dyn Fn(&Event) + Send + Sync>;
+
+pub struct Spy {
+    pub inner: Arc<dyn Kinematics>,
+    pub log: Mutex<Vec<Event>>,
+    pub seq: AtomicU64,
+    /// called BEFORE the inner call is made (n_result = 0)
+    pub before: Option<Callback>,
+    pub record: bool,
+}
+
+fn thread_id() -> u64 {
+    use std::hash::{Hash, Hasher};
+    let mut h = std::collections::hash_map::DefaultHasher::new();
+    std::thread::current().id().hash(&mut h);
+    h.finish()
+}
+
+impl Spy {
+    pub fn new(inner: Arc<dyn Kinematics>) -> Spy {
+        Spy { inner, log: Mutex::new(Vec::new()), seq: AtomicU64::new(0), before: None, record: true }
+    }
+    pub fn with_callback(inner: Arc<dyn Kinematics>, cb: Callback) -> Spy {
+        Spy { inner, log: Mutex::new(Vec::new()), seq: AtomicU64::new(0), before: Some(cb), record: true }
+    }
+    fn ev(&self, method: Method, pose: Option<&Pose>, joints: Option<&Joints>, j6: Option<f64>) -> Event {
+        let e = Event { seq: self.seq.fetch_add(1, Ordering::SeqCst), thread: thread_id(), method, pose: pose.cloned(), joints: joints.cloned(), j6, n_result: 0 };
+        if let Some(cb) = &self.before {
+            cb(&e);
+        }
+        e
+    }
+    fn push(&self, mut e: Event, n: usize) {
+        if self.record {
+            e.n_result = n;
+            self.log.lock().unwrap().push(e);
+        }
+    }
+    pub fn take(&self) -> Vec<Event> {
+        let mut v = std::mem::take(&mut *self.log.lock().unwrap());
+        v.sort_by_key(|e| e.seq);
+        v
+    }
+    pub fn clear(&self) {
+        self.log.lock().unwrap().clear();
+    }
+}
+
+impl Kinematics for Spy {
+    fn inverse(&self, pose: &Pose) -> Solutions {
+        let e = self.ev(Method::Inverse, Some(pose), None, None);
+        let r = self.inner.inverse(pose);
+        self.push(e, r.len());
+        r
+    }
+    fn inverse_continuing(&self, pose: &Pose, previous: &Joints) -> Solutions {
+        let e = self.ev(Method::Continuing, Some(pose), Some(previous), None);
+        let r = self.inner.inverse_continuing(pose, previous);
+        self.push(e, r.len());
+        r
+    }
+    fn forward(&self, qs: &Joints) -> Pose {
+        let e = self.ev(Method::Forward, None, Some(qs), None);
+        let r = self.inner.forward(qs);
+        self.push(e, 1);
+        r
+    }
+    fn inverse_5dof(&self, pose: &Pose, j6: f64) -> Solutions {
+        let e = self.ev(Method::FiveDof, Some(pose), None, Some(j6));
+        let r = self.inner.inverse_5dof(pose, j6);
+        self.push(e, r.len());
+        r
+    }
+    fn inverse_continuing_5dof(&self, pose: &Pose, prev: &Joints) -> Solutions {
+        let e = self.ev(Method::Continuing5, Some(pose), Some(prev), None);
+        let r = self.inner.inverse_continuing_5dof(pose, prev);
+        self.push(e, r.len());
+        r
+    }
+    fn constraints(&self) -> &Option<Constraints> {
+        let e = self.ev(Method::Constraints, None, None, None);
+        let r = self.inner.constraints();
+        self.push(e, 1);
+        r
+    }
+    fn kinematic_singularity(&self, qs: &Joints) -> Option<Singularity> {
+        let e = self.ev(Method::Singularity, None, Some(qs), None);
+        let r = self.inner.kinematic_singularity(qs);
+        self.push(e, 1);
+        r
+    }
+    fn forward_with_joint_poses(&self, joints: &Joints) -> [Pose; 6] {
+        let e = self.ev(Method::Links, None, Some(joints), None);
+        let r = self.inner.forward_with_joint_poses(joints);
+        self.push(e, 6);
+        r
+    }
+}
